@@ -334,6 +334,11 @@ class Memory:
             raise GoPanic('use-after-free', '%s of %s' % (what, obj.label))
         if off < 0 or off + n > obj.size:
             raise GoPanic('oob', '%s of %d bytes at %s+%d (size %d)' % (what, n, obj.label, off, obj.size))
+        if what == 'read' and obj.meta and 'pooled' in obj.meta and not obj.meta.get('pooled_reported'):
+            # (e.g. a result that aliases a buffer already handed back to a pool: the next Get may hand it to someone else)
+            obj.meta['pooled_reported'] = True
+            self.ex.events.append(('assert', 'no use after sync.Pool.Put'))
+            self.ex.verif_assert(False, 'no load from a value after it was handed to sync.Pool.Put (Put at %s): another goroutine may already own and overwrite it' % str(obj.meta['pooled']).split('/')[-1])
 
     def read(self, obj, off, n, raw=False):
         self.check(obj, off, n, 'read')
@@ -1613,6 +1618,29 @@ class Executor:
             if isinstance(args[0], Ptr) and args[0].isnil():
                 raise GoPanic('nil-deref', 'wrapnilchk', ins.get('pos', ''))
             return args[0]
+        if name == 'Slice':          # unsafe.Slice(ptr, len)
+            ptr, ln = args
+            if not isinstance(ln, int):
+                ln = self.sym_len(ln, 'unsafe.Slice length')
+            ln = signed(ln, 64)
+            if isinstance(ptr, Ptr) and ptr.isnil():
+                if ln != 0:
+                    raise GoPanic('explicit', 'unsafe.Slice: ptr is nil and len is not zero', ins.get('pos', '') if ins else '')
+                return Slice(NIL, 0, 0)
+            if ln < 0:
+                raise GoPanic('explicit', 'unsafe.Slice: len out of range', ins.get('pos', '') if ins else '')
+            return Slice(ptr, ln, ln)
+        if name == 'SliceData':      # unsafe.SliceData: pointer to the first element of the backing array
+            x = args[0]
+            return x.ptr if isinstance(x, Slice) else NIL
+        if name == 'StringData':
+            x = args[0]
+            if isinstance(x, Str):
+                o = self.mem.alloc(max(len(x.b), 1), True, 'stringdata')
+                for i, b in enumerate(x.b):
+                    self.mem.write(o, i, 1, b)
+                o.ro = True
+                return Ptr(o, 0)
         raise Unsupported('builtin ' + name)
 
     def memmove(self, dst, src, n):
